@@ -19,7 +19,11 @@ MANIFEST = {
     "facts) appends to the device ledger: a stop for every moved device, clear_sub's, an unstage for every member of _staged "
     "(even if some raise), clear_sub's of the runs it closes -- so every moved device has a stop after its last set, every "
     "device still staged has an unstage after its last stage, _staged and the bundler table are empty and no monitor "
-    "registration is left (C06_clean_at_idle). The Python oracle states the property on the real device ledger at idle; "
+    "registration is left (C06_clean_at_idle). Lifted end to end: `every set entry of the ledger belongs to a device in "
+    "_movable_objs_touched` is an invariant of every command, every block of _run, every environment action and the scheduler, "
+    "so for EVERY plan / device behaviour / script, when RE(plan), resume() or abort/stop/halt hand control back with the task "
+    "over, every set in the ledger is followed by a stop of that device, _staged is empty and no bundler is left "
+    "(C06_call_returns_clean). The Python oracle states the property on the real device ledger at idle; "
     "the model is tied to the real RunEngine by differential runs.",
     "note": "Trusted: Lean kernel; engine_extract.py; the hand-written _run machine (tied by the correspondence run under a "
     "deterministic event loop). NOT modelled: flyers (kickoff / collect / backstop_collect; known open finding F19), "
@@ -88,6 +92,34 @@ def oracle(sc, o):
         if idx_set:
             if not any(e[0] == d and e[1] == "stop" for e in led[idx_set[-1] + 1 :]):
                 bad.append((f"moved-device-not-stopped:{kind}", f"{d}: no stop() after its last set() (ledger of {d}: {[x[1] for x in led if x[0] == d]})"))
+    # "as many times": the engine's own unstage calls (those not answering an `unstage` message) only go to devices
+    # that are staged at that moment (successful stage not yet followed by a successful unstage)
+    T = o["ticks"]
+    mt = T["msgs"]
+    plan_driven = set()
+    for i, (m, tm) in enumerate(zip(o["msgs"], mt)):
+        if m[0] == "unstage":
+            end = mt[i + 1] if i + 1 < len(mt) else float("inf")
+            for j, (e, tl) in enumerate(zip(led, T["ledger"])):
+                if tm < tl < end and e[0] == m[1] and e[1] == "unstage":
+                    plan_driven.add(j)
+                    break
+    depth_s, count = {}, {}
+    for j, e in enumerate(led):
+        d, op = e[0], e[1]
+        if op not in ("stage", "unstage"):
+            continue
+        k = count.get((d, op), 0)
+        count[(d, op)] = k + 1
+        ok = _mode(sc, d, op, k) != "raise"
+        if op == "stage":
+            if ok:
+                depth_s[d] = depth_s.get(d, 0) + 1
+        else:
+            if j not in plan_driven and depth_s.get(d, 0) < 1:
+                bad.append((f"engine-unstaged-device-that-is-not-staged:{kind}", f"{d}: the cleanup called unstage() although the device is not staged (ledger of {d}: {[x[1] for x in led if x[0] == d]})"))
+            if ok:
+                depth_s[d] = max(0, depth_s.get(d, 0) - 1)
     for name, n in o.get("subs_left", {}).items():
         if n != 0:
             bad.append((f"subscription-left-on-device:{kind}", f"{name} still has {n} engine subscription(s) at idle"))
